@@ -613,12 +613,22 @@ Section Classes.
     | VLam _ _ b sc => top_natural b || paren_lossy b || existsb (fun kv => v_body_lossy (snd kv)) sc
     | _ => false
     end.
+  (* the body of the function, or of a captured closure, has via / into / where at its top
+     level: written after `(args) =>` it needs parentheses (F51) *)
+  Fixpoint v_top_natural (v : value) : bool :=
+    match v with
+    | VList l => existsb v_top_natural l
+    | VRec r => existsb (fun kv => v_top_natural (snd kv)) r
+    | VLam _ _ b sc => top_natural b || existsb (fun kv => v_top_natural (snd kv)) sc
+    | _ => false
+    end.
 End Classes.
 
 Definition bit (b : bool) : string := if b then "1" else "0".
 
 (* one line per case of the EMIT correspondence:
-   classes (nan, escape, bothq, doshadow, selfname, closed, lossy-before, lossy-after) and, for
+   classes (nan, escape, bothq, doshadow, selfname, closed, lossy-before, lossy-after, body needs
+   lambda-body parentheses) and, for
    each of the two ASTs produced by the implementation, which model variants it equals
    (nanfix,dofix) = (0,0) (1,0) (0,1) (1,1) *)
 Definition emit_report (st : store) (v : value) (ast1 ast2 : option expr) : string :=
@@ -634,6 +644,7 @@ Definition emit_report (st : store) (v : value) (ast1 ast2 : option expr) : stri
       ++ bit (v_do_shadows v) ++ bit (v_self_shadow st v) ++ bit (closed_after_capture v)
       ++ bit (v_body_lossy v)
       ++ bit (match emit_ast true true v with Some e => paren_lossy e | None => false end)
+      ++ bit (v_top_natural v)
   ++ " A1" ++ cmp ast1 ++ " A2" ++ cmp ast2.
 
 (* ------------------------------------------------------------------------------------------ *)
